@@ -407,8 +407,9 @@ func (it *Interp) setupIntrinsics() {
 				panic(pathEnd{"killed", "choose from an empty set"})
 			}
 			k := it.choose(int(n.SInt64()))
-			it.extendModel(v, it.mkInt(k))
-			it.addPC(it.tb.Eq(v, it.mkInt(k)))
+			// the chosen value is recorded for models/replay but not sent to the solver: an Int equality
+			// would turn pure real-arithmetic queries into mixed Int/Real ones (z3 then leaves nlsat)
+			it.fixed[v.Name] = it.mkInt(k)
 			return it.mkInt(k)
 		}
 		it.extendModel(v, it.mkInt(0))
